@@ -1085,8 +1085,67 @@ func cutLineLoop(fn *ssa.Function, payload ssa.Value) *cutLoop {
 			}
 		}
 		cl := &cutLoop{First: first, Next: next, Line: line}
-		/* Every way out of the loop is the "no newline was found" edge of
-		a test of more. */
+		cutLoopExits(fn, h, more, cl)
+		out = cl
+	})
+	if nil != out {
+		return out
+	}
+	/* The same with one Cut, in the loop: for rest, more := s, true; more; {
+	line, rest, more = strings.Cut(rest, sep); use(line) }. */
+	eachInstr(fn, func(i ssa.Instruction) {
+		cut, ok := i.(*ssa.Call)
+		if !ok || nil != out {
+			return
+		}
+		if n := calleeName(cut.Common()); "strings.Cut" != n && "bytes.Cut" != n {
+			return
+		}
+		if sep, isC := constString(stripConv(cut.Common().Args[1], true)); !isC || "\n" != sep {
+			return
+		}
+		rest, ok := cut.Common().Args[0].(*ssa.Phi)
+		if !ok {
+			return
+		}
+		h := rest.Block()
+		ifi := blockIf(h)
+		if nil == ifi {
+			return
+		}
+		more, ok := ifi.Cond.(*ssa.Phi)
+		if !ok || more.Block() != h || !(h.Succs[0] == cut.Block() || h.Succs[0].Dominates(cut.Block())) {
+			return
+		}
+		for k, e := range rest.Edges {
+			if h.Dominates(h.Preds[k]) {
+				if x, isEx := e.(*ssa.Extract); !isEx || 1 != x.Index || x.Tuple != ssa.Value(cut) {
+					return
+				}
+			} else if stripConv(e, true) != payload {
+				return
+			}
+		}
+		for k, e := range more.Edges {
+			if h.Dominates(h.Preds[k]) {
+				if x, isEx := e.(*ssa.Extract); !isEx || 2 != x.Index || x.Tuple != ssa.Value(cut) {
+					return
+				}
+			} else if c, isC := e.(*ssa.Const); !isC || nil == c.Value || "true" != c.Value.String() {
+				return
+			}
+		}
+		cl := &cutLoop{First: cut, Next: cut}
+		cutLoopExits(fn, h, more, cl)
+		out = cl
+	})
+	return out
+}
+
+// cutLoopExits: every way out of the loop headed by h is the "no newline was
+// found" edge of a test of more, and nothing in it returns.
+func cutLoopExits(fn *ssa.Function, h *ssa.BasicBlock, more *ssa.Phi, cl *cutLoop) {
+	{
 		inLoop := map[*ssa.BasicBlock]bool{}
 		for _, b := range fn.Blocks {
 			if h.Dominates(b) && (b == h || nil != (reachQ{From: Loc{b, -1, nil}, Target: func(j ssa.Instruction) bool { return j.Block() == h }}).run()) {
@@ -1120,9 +1179,7 @@ func cutLineLoop(fn *ssa.Function, payload ssa.Value) *cutLoop {
 				}
 			}
 		}
-		out = cl
-	})
-	return out
+	}
 }
 
 func sameConstString(a, b ssa.Value) bool {
